@@ -162,7 +162,8 @@ func c16CredUDP(c c16CredCase) (key, msg string) {
 	if a, b := cl.registered(c.Secret); a || b {
 		return "harness", "the secret of this case is already registered on the shared listener"
 	}
-	actx, acancel := context.WithCancel(context.Background())
+	// a deadline, not only a cancel: SCTP set-up inside AcceptWithContext ignores cancellation
+	actx, acancel := context.WithTimeout(context.Background(), c16FailWait+2*c16HSWait)
 	defer acancel()
 	accCh := make(chan c16AccRes, 1)
 	go func() {
